@@ -68,4 +68,10 @@ def fcboDual (K : Ctx) : List (Nat × Nat) :=
   let (e0, i0) := K.dpObj 0            -- Objects.infimum.doubleprime()
   (fcboNode S (K.n + 1) ⟨e0, i0⟩ 0 (Array.replicate K.n 0)).map fun nd => (nd.own, nd.other)
 
+/-- `algorithms.iterconcepts(context)`: `map(Concept._make, fast_generate_from(context))` — the same pairs, in the same order -/
+def iterconcepts (K : Ctx) : List (Nat × Nat) := (fcbo K).map fun p => (p.1, p.2)
+
+/-- `algorithms.get_concepts(context)`: `ConceptList.frompairs(fast_generate_from(context))` -/
+def getConcepts (K : Ctx) : List (Nat × Nat) := (fcbo K).map fun p => (p.1, p.2)
+
 end FCA
